@@ -40,7 +40,8 @@ Inductive ntree : Type :=
 | NAtom (id : nat) (d : definition) (tok : nat)
 | NPre (id : nat) (d : definition) (tok : nat) (arg : ntree)
 | NSuf (id : nat) (d : definition) (tok : nat) (arg : ntree)
-| NBin (id : nat) (d : definition) (tok : option nat) (l r : ntree).
+| NBin (id : nat) (d : definition) (tok : option nat) (l r : ntree)
+| NGroup (id : nat) (tok : nat) (inner : ntree).
 
 Fixpoint erase (t : ntree) : rtree :=
   match t with
@@ -48,27 +49,30 @@ Fixpoint erase (t : ntree) : rtree :=
   | NPre _ d k a => RPre d k (erase a)
   | NSuf _ d k a => RSuf d k (erase a)
   | NBin _ d k l r => RBin d k (erase l) (erase r)
+  | NGroup _ k a => RGroup k (erase a)
   end.
 
 Definition nid (t : ntree) : nat :=
   match t with
-  | NAtom i _ _ | NPre i _ _ _ | NSuf i _ _ _ | NBin i _ _ _ _ => i
+  | NAtom i _ _ | NPre i _ _ _ | NSuf i _ _ _ | NBin i _ _ _ _ | NGroup i _ _ => i
   end.
 
 (* ---- open frames of the right spine, innermost first ---- *)
 Inductive frame : Type :=
 | FBin (id : nat) (d : definition) (tok : option nat) (l : ntree)   (* [l d _]: right operand pending *)
-| FPre (id : nat) (d : definition) (tok : nat).                     (* [d _] *)
+| FPre (id : nat) (d : definition) (tok : nat)                      (* [d _] *)
+| FGroup (id : nat) (tok : nat).                                    (* [( _]: an open bracket *)
 
 Definition frame_def (f : frame) : definition :=
-  match f with FBin _ d _ _ | FPre _ d _ => d end.
+  match f with FBin _ d _ _ | FPre _ d _ => d | FGroup _ _ => D_Group end.
 Definition frame_id (f : frame) : nat :=
-  match f with FBin i _ _ _ | FPre i _ _ => i end.
+  match f with FBin i _ _ _ | FPre i _ _ | FGroup i _ => i end.
 
 Definition plug (f : frame) (t : ntree) : ntree :=
   match f with
   | FBin i d k l => NBin i d k l t
   | FPre i d k => NPre i d k t
+  | FGroup i k => NGroup i k t
   end.
 
 Fixpoint close (fs : list frame) (t : ntree) : ntree :=
@@ -80,9 +84,12 @@ Fixpoint close (fs : list frame) (t : ntree) : ntree :=
 (* the operator [d] stays below the frame [f] (is "inside" the operand the frame is
    waiting for) iff the table says so; otherwise the frame is closed first *)
 Definition stays_below (d : definition) (f : frame) : bool :=
-  match ref_rank (frame_def f) with
-  | Some q => inside d q
-  | None => false
+  match f with
+  | FGroup _ _ => true            (* an open bracket is never closed by an operator *)
+  | _ => match ref_rank (frame_def f) with
+         | Some q => inside d q
+         | None => false
+         end
   end.
 
 Fixpoint pop (d : definition) (fs : list frame) (t : ntree) : list frame * ntree :=
@@ -91,8 +98,19 @@ Fixpoint pop (d : definition) (fs : list frame) (t : ntree) : list frame * ntree
   | f :: r => if stays_below d f then (fs, t) else pop d r (plug f t)
   end.
 
+(* a closing bracket closes every frame above the innermost open bracket, and the bracket *)
+Fixpoint close_group (fs : list frame) (t : ntree) : option (list frame * ntree) :=
+  match fs with
+  | [] => None
+  | FGroup i k :: r => Some (r, NGroup i k t)
+  | f :: r => close_group r (plug f t)
+  end.
+
+Definition is_fgroup (f : frame) : bool := match f with FGroup _ _ => true | _ => false end.
+
 (* machine state: open frames and the operand just completed ([None]: an operand is
-   expected).  [n] is the index the next node gets: every item makes one node. *)
+   expected).  [n] is the index the next node gets: every item but a closing bracket
+   makes one node. *)
 Definition spine_state : Type := (list frame * option ntree)%type.
 
 Definition spine_step (it : item) (n : nat) (st : spine_state) : option spine_state :=
@@ -110,46 +128,58 @@ Definition spine_step (it : item) (n : nat) (st : spine_state) : option spine_st
       | Some _ => let '(fs', t') := pop d fs t in Some (fs', Some (NSuf n d k t'))
       | None => None
       end
+  | IOpen k, (fs, None) => Some (FGroup n k :: fs, None)
+  | IClose _, (fs, Some t) =>
+      match close_group fs t with
+      | Some (fs', t') => Some (fs', Some t')
+      | None => None
+      end
   | _, _ => None
   end.
+
+Definition next_index (it : item) (n : nat) : nat :=
+  match it with IClose _ => n | _ => S n end.
 
 Fixpoint spine_run (its : list item) (n : nat) (st : spine_state) : option spine_state :=
   match its with
   | [] => Some st
   | it :: r =>
     match spine_step it n st with
-    | Some st' => spine_run r (S n) st'
+    | Some st' => spine_run r (next_index it n) st'
     | None => None
     end
   end.
 
 Definition spine_insert (its : list item) : option ntree :=
   match spine_run its 0 ([], None) with
-  | Some (fs, Some t) => Some (close fs t)
+  | Some (fs, Some t) => if existsb is_fgroup fs then None else Some (close fs t)
   | _ => None
   end.
 
-(* ---- (2) bracket-free operator expressions of any length: values, prefix, suffix and
-   binary operators (every token of each class), whitespace anywhere between tokens.
-   [after]: an operand has just been completed; [spaced]: whitespace seen since the last
-   significant token.  A value or prefix operator directly after a completed operand is
-   only allowed across whitespace (the implicit space list). ---- *)
-Fixpoint opexpr_from (toks : list token_type) (after spaced : bool) : bool :=
+(* ---- (2) operator expressions of any length: values, prefix, suffix and binary
+   operators (every token of each class), round brackets nested to any depth, whitespace
+   anywhere between tokens.  [after]: an operand has just been completed; [spaced]:
+   whitespace seen since the last significant token; [depth]: open brackets.  A value, a
+   prefix operator or an opening bracket directly after a completed operand is only
+   allowed across whitespace (the implicit space list). ---- *)
+Fixpoint opexpr_from (toks : list token_type) (after spaced : bool) (depth : nat) : bool :=
   match toks with
-  | [] => after && negb spaced
+  | [] => after && negb spaced && Nat.eqb depth 0
   | t :: r =>
     match ref_kind t with
-    | KSpace => opexpr_from r after true
-    | KValue => (negb after || spaced) && opexpr_from r true false
-    | KPrefix => (negb after || spaced) && opexpr_from r false false
-    | KBinary => after && opexpr_from r false false
-    | KSuffix => after && opexpr_from r true false
-    | _ => false
+    | KSpace => opexpr_from r after true depth
+    | KValue => (negb after || spaced) && opexpr_from r true false depth
+    | KPrefix => (negb after || spaced) && opexpr_from r false false depth
+    | KOpen => (negb after || spaced) && opexpr_from r false false (S depth)
+    | KBinary => after && opexpr_from r false false depth
+    | KSuffix => after && opexpr_from r true false depth
+    | KClose => after && match depth with S d => opexpr_from r true false d | O => false end
+    | KOther => false
     end
   end.
 
 Definition operator_expression (toks : list token_type) : bool :=
   match toks with
-  | t :: _ => negb (is_space_tok t) && opexpr_from toks false false
+  | t :: _ => negb (is_space_tok t) && opexpr_from toks false false 0
   | [] => false
   end.
